@@ -191,9 +191,36 @@ def main():
 
         pathlib.Path.write_text = write_text
 
+    # ---- earlier runs in this very interpreter (a script or a long-lived tool that generates several times): executed
+    # without fault injection and without the effect recorder; whatever process-level state they leave behind is the
+    # "history" under which the judged run then executes
+    real_stdout = sys.stdout
+    result["pre_runs"] = []
+    for pre in job.get("pre_runs") or []:
+        state["armed"] = False
+        saved_env = dict(os.environ)
+        for k in pre.get("env_unset", []):
+            os.environ.pop(k, None)
+        os.environ.update(pre.get("env", {}))
+        os.chdir(pre["cwd"])
+        sys.stdout = io.StringIO()
+        try:
+            acm.main(args=pre["argv"], standalone_mode=False)
+            oc = "0"
+        except BaseException as e:  # noqa
+            oc = type(e).__name__
+        finally:
+            sys.stdout = real_stdout
+            os.environ.clear()
+            os.environ.update(saved_env)
+            os.chdir(job["cwd"])
+        result["pre_runs"].append({"outcome": oc, "http_upto": len(result["http"])})
+    state["armed"] = True
+    result["http_main_from"] = len(result["http"])
+    result["constructed_main_from"] = len(http_ctx.constructed) if http_ctx is not None else 0
+
     sys.addaudithook(hook)
     buf = io.StringIO()
-    real_stdout = sys.stdout
     sys.stdout = buf
     try:
         try:
